@@ -10,5 +10,6 @@ CONSTANTS
   MAXUPD = 0
   CANCELS = 1
   TIMERS = TRUE
+  SeesAdmitting = FALSE
 SYMMETRY Sym2
 INVARIANTS CancelTakesEffect
